@@ -887,6 +887,11 @@ func RunWireNil(p *Prog, root *ssa.Function, cmdFunctionNonNil bool) *WireNil {
 						if w.tainted[x.X] {
 							w.mark(x)
 						}
+					case *ssa.Convert:
+						// string(*d) of a wire value is wire text
+						if w.tainted[x.X] {
+							w.mark(x)
+						}
 					case *ssa.ChangeInterface:
 						if w.tainted[x.X] {
 							w.mark(x)
@@ -1098,6 +1103,9 @@ func RunWireNil(p *Prog, root *ssa.Function, cmdFunctionNonNil bool) *WireNil {
 		for _, f := range fns {
 			if strings.Contains(f.String(), dbg) {
 				fmt.Fprintf(os.Stderr, "E5 %s entry=%v\n", f, w.entryFacts[f])
+				for _, prm := range f.Params {
+					fmt.Fprintf(os.Stderr, "E5   param %s tainted=%v nilable=%v\n", prm.Name(), w.taintedParam[prm], w.nilableParam[prm])
+				}
 			}
 		}
 	}
@@ -1137,6 +1145,17 @@ func RunWireNil(p *Prog, root *ssa.Function, cmdFunctionNonNil bool) *WireNil {
 						}
 					}
 				case *ssa.Index:
+					// s[k] on a wire-derived string: an empty (or short) text panics
+					if bt, isB := x.X.Type().Underlying().(*types.Basic); isB && bt.Info()&types.IsString != 0 && w.tainted[x.X] {
+						if k, isK := constInt(x.Index); isK {
+							w.Total++
+							if k == 0 && w.factsAt[ins]["ln:"+wpath(x.X, 0)] {
+								w.Guarded++
+							} else {
+								w.Findings = append(w.Findings, wnFinding{f, ins, fmt.Sprintf("index[%d]", k), "text " + displayPath(wpath(x.X, 0))})
+							}
+						}
+					}
 					if _, isConst := x.Index.(*ssa.Const); isConst {
 						if _, isSlice := x.X.Type().Underlying().(*types.Slice); isSlice && w.tainted[x.X] {
 							w.Total++
